@@ -317,6 +317,28 @@ def run(ctx):
         ctx.require(set(mode_enum) == {'STANDARD', 'HEX', 'CONTROL_ONLY'}, 'StringEscapeMode enumerators changed: %s' % sorted(mode_enum))
         table, raw_ok, term = parser_tables(I, u, P)
         ctx.require(term == 34, 'string terminator is not the double quote')
+        # the parser side by evaluation as well: the quoted text is handed to JSON::parse (folded on the
+        # constant document, both modes where the text is standard JSON) - whatever guards the parser
+        # applies to an escape's value are exercised, not pattern-matched
+        from peval import PEval as _PE2, Lit as _Lit, JV as _JV, Thrown as _Thrown
+        us_ = repo_unit('Strings.cc')
+        PEp = _PE2([u, us_], max_depth=80, max_iter=20000)
+        ev_state = {'und': None, 'n': 0}
+
+        def parsed_back(em, strict):
+            doc = b'"' + em + b'"'
+            try:
+                v = PEp.call_with(cptr[0], [_Lit(doc), len(doc), strict])
+            except _Thrown as e_:
+                return 'throws %s' % e_.etype
+            except Fault as e_:
+                return 'faults (%s)' % e_
+            except Undecided as e_:
+                ev_state['und'] = str(e_)
+                return None
+            if isinstance(v, _JV) and v.kind == 'str':
+                return bytes(v.val) if not isinstance(v.val, bytes) else v.val
+            return 'gives a %s' % (v.kind if isinstance(v, _JV) else type(v).__name__)
         for mname, mval in sorted(mode_enum.items()):
             bad = []
             for b in range(256):
@@ -326,10 +348,21 @@ def run(ctx):
                     ctx.bad(R, key, esc, how)
                     continue
                 got, why = decode(em, table, raw_ok, term)
+                if got == b and not ev_state['und']:
+                    for strict_ in ((0, 1) if mname == 'STANDARD' else (0,)):
+                        back = parsed_back(em, strict_)
+                        if back is None:
+                            break
+                        ev_state['n'] += 1
+                        if back != bytes([b]):
+                            got, why = None, 'JSON::parse(%s) in %s mode %s' % (('"%s"' % em.decode('latin1')), 'strict' if strict_ else 'default', back if isinstance(back, str) else 'gives the string %r' % back)
+                            break
                 if got == b:
                     ctx.ok(R, key, esc, '%r -> 0x%02X' % (em.decode('latin1'), b), nontrivial=(len(em) > 1 or b in (0x20, 0x7E, 0x7F, 0x80, 0xFF)))
                 else:
                     ctx.bad(R, key, esc, 'mode %s: byte 0x%02X is serialized as %r, which the parser %s' % (mname, b, em.decode('latin1'), ('decodes to 0x%02X' % got) if got is not None else ('rejects/misreads: ' + why)))
+            if ev_state['und'] and mname == 'STANDARD':
+                ctx.undecided(R, 'parser-by-evaluation', P, 'JSON::parse could not be folded on the emitted texts (%s): the parser side is judged by the escape-table pattern only' % ev_state['und'])
             # STANDARD mode emits only standard JSON escapes (no \x)
             if mname == 'STANDARD':
                 nonstd = [b for b in range(256) if (emitted_for(b, mval)[0] or b'')[:2] == b'\\x']
@@ -563,7 +596,19 @@ def run(ctx):
         if cmp_:
             csw = [x for x in walk(body_of(cmp_[0])) if x.get('kind') == 'SwitchStmt']
             labels = {int_value(kids(c)[0]) for x in csw for c in walk(x) if c.get('kind') == 'CaseStmt'}
-            ctx.check(labels == set(range(7)), R, 'operator<=>|cases', cmp_[0], 'cases 0..6', 'comparison handles indices %s' % sorted(labels))
+            # an index may also be dealt with before the switch (`if (index == 2 || index == 3) return ...`)
+            early = set()
+            for x in walk(body_of(cmp_[0])):
+                if x.get('kind') in ('BinaryOperator',) and x.get('opcode') == '==' and not any(any(y is x for y in walk(sw_)) for sw_ in csw):
+                    for a_, b_ in ((x['inner'][0], x['inner'][1]), (x['inner'][1], x['inner'][0])):
+                        if int_value(b_) is not None and 'index' in canon(a_):
+                            early.add(int_value(b_))
+            has_default = any(c.get('kind') == 'DefaultStmt' for x in csw for c in walk(x))
+            missing = set(range(7)) - labels - early
+            if missing and has_default:
+                ctx.undecided(R, 'operator<=>|cases', cmp_[0], 'indices %s are left to a default label' % sorted(missing))
+            else:
+                ctx.check(not missing, R, 'operator<=>|cases', cmp_[0], 'every variant index 0..6 is dispatched (case labels %s, tested before the switch %s)' % (sorted(labels), sorted(early)), 'comparison handles indices %s' % sorted(labels | early))
         # as_X returns the alternative named X
         idx = {n: i for i, n in enumerate(ALT_NAMES)}
         for nm in ('as_bool', 'as_string', 'as_list', 'as_dict'):
